@@ -71,7 +71,7 @@ def gen_enum(rng, idx, n_enabled, placement, generics, kinds, robust=False):
             pool = ["NoDefault"]  # a disabled variant may hold a type without Default
         tys = [rng.choice(pool) for _ in range(nf)]
         extra = ""
-        if not dis and kind == "tuple" and nf == 1 and tys[0] in ("u8", "String", "Seven") and rng.random() < 0.3:
+        if not dis and not noise.MINIMAL[0] and kind == "tuple" and nf == 1 and tys[0] in ("u8", "String", "Seven") and rng.random() < 0.3:
             # default_with belongs to EnumString: the iterator still yields Default::default() payloads
             extra = '#[strum(default_with = "dw_%s")]' % tys[0].lower()
         elif not dis and not robust and rng.random() < 0.15:
@@ -176,8 +176,9 @@ def generate(rng, seed, size):
         return [("c05_huge.rs", generate_huge(rng, seed, size))]
     enums = []
     idx = 0
-    target = {"small": 24, "base": 96, "large": 160, "robust": 30}[size]
-    robust = size == "robust"
+    target = {"small": 24, "base": 96, "large": 160, "robust": 30, "minimal": 24}[size]
+    robust = size in ("robust", "minimal")
+    minimal = size == "minimal"
     # systematic part: every N in 0..8 with every placement at least once
     combos = []
     for n in range(0, 9):
@@ -235,11 +236,11 @@ def generate(rng, seed, size):
     probes = []
     for e in enums:
         decl, inst_fmt = GEN_DECL[e["generics"]]
-        if not (size == "robust"):
+        if not robust:
             for l in noise.enum_noise(rng):
                 out.append(l + "\n")
         out.append("#[derive(EnumIter, Debug, PartialEq)]\n")
-        if size != "robust":
+        if not robust:
             for l in noise.enum_strum_noise(rng):
                 out.append(l + "\n")
         out.append("pub enum %s%s {\n" % (e["name"], decl))
@@ -262,7 +263,7 @@ def generate(rng, seed, size):
                          % (e["name"], tag, e["n"], desc.replace('"', '\\"'), ty, fn))
         out.append("\n")
     # the same enum and variant names once more in a nested module, disabled flags flipped, unit variants only
-    if True:
+    if not minimal:
         out.append("pub mod dup {\n    use super::*;\n")
         for e in [e for e in enums if e["generics"] == "none" and 2 <= len(e["variants"]) <= 10][:4]:
             flags = [not v["disabled"] for v in e["variants"]]
@@ -282,13 +283,15 @@ def generate(rng, seed, size):
         out.append("}\n\n")
     # a module in which `Default` and `core` mean something else: the generated code must keep using ::core's
     # (a local `Some`/`Option` is outside the domain on HEAD: size_hint writes an unqualified `Some(t)`)
-    out.append("pub mod shadow {\n    use strum::EnumIter;\n    pub trait Default { fn default() -> Self; }\n"
+    if not minimal:
+      out.append("pub mod shadow {\n    use strum::EnumIter;\n    pub trait Default { fn default() -> Self; }\n"
                "    impl Default for u8 { fn default() -> u8 { 42 } }\n    impl Default for String { fn default() -> String { String::from(\"shadow\") } }\n"
                "    pub mod core { pub mod default { pub trait Default { fn default() -> Self; } impl Default for u8 { fn default() -> u8 { 43 } } } }\n"
                "    #[derive(EnumIter, Debug, PartialEq)]\n    pub enum Sh0 { A(u8), B { x: String, y: u8 }, #[strum(disabled)] C, D }\n"
                "    pub fn exp_sh0() -> Vec<Sh0> {\n        vec![Sh0::A(::core::default::Default::default()), Sh0::B { x: ::core::default::Default::default(), y: ::core::default::Default::default() }, Sh0::D]\n    }\n"
                "}\n\n")
-    cases.append('    Case { name: "Sh0_shadow", n: 3, desc: "enum shadow::Sh0 { A(u8) B{String,u8} ~C D } in a module that defines its own Default trait and core module", make: || mk::<shadow::Sh0>(shadow::exp_sh0()) },\n')
+    if not minimal:
+      cases.append('    Case { name: "Sh0_shadow", n: 3, desc: "enum shadow::Sh0 { A(u8) B{String,u8} ~C D } in a module that defines its own Default trait and core module", make: || mk::<shadow::Sh0>(shadow::exp_sh0()) },\n')
     out.append("pub static CASES: &[Case] = &[\n")
     out.extend(cases)
     out.append("];\n")
